@@ -21,6 +21,8 @@ def main(tier, seed):
         items = core1[:360] + hist[:300]
     items += fam_tt.template_family(seed, tier)
     items += fam_tt.random_tt(seed, 30 if quick else 400)
+    from hv import fam_ops
+    items += [it for it in fam_ops.fold_family([2]) if 'spec' in it.meta['family']]      # `??` with a constant operand, against its run-time twin
     items += families.examples(names={'max', 'factor', 'mergesort', 'optional_max', 'ouroboros'}, s=120)
     # the oracle itself: HiDSem's backtracking against the declarative semantics of TimeTravel.tla
     mc, nprog = tt_mc.run(2 if quick else 3, tier, timeout=900)
